@@ -86,6 +86,20 @@ def alias_rules(F, R, d):
     reach = b.reachable(nonempty_t, avoid=avoid | {empty_t}, succ=succ)
     R.ob('C17.bind', '%s|topic+alias=>stored-or-equal-before-handler' % d.name, new_bi not in reach,
          'a PUBLISH with topic and alias can reach the handler without the binding being stored (and without the stored topic having compared equal): a later alias-only PUBLISH resolves to a stale topic')
+    # --- the alias block precedes every non-error exit of the arm (except the duplicate-id refusal):
+    #     a PUBLISH that is accepted but not delivered (connection closing) still (re)binds its alias
+    alias_sw = [swb for swb, tb in noalias]
+    dup_regions = set()
+    for ibi, it, iap in d.inflight_calls(b, 'insert'):
+        if ibi in reg:
+            rr = call_bool_branch(b, ibi)
+            if rr and rr[0] != 'discr':
+                dup_regions |= b.reachable(rr[2], avoid=[rr[1]])
+    exits = [bi for bi, j, s in agg_sites(b, r'^std::result::Result$', 'Ok') if bi in reg and s['lhs']['l'] == 0 and bi not in dup_regions] + [new_bi]
+    early = [x for x in exits if alias_sw and not b.must_pass(set(alias_sw), x)]
+    R.ob('C17.bind', '%s|alias-handling-before-every-accepting-exit' % d.name, bool(alias_sw) and not early,
+         'the PUBLISH arm can finish (message accepted but dropped, e.g. connection closing) before the topic-alias block ran: the binding carried by that PUBLISH is lost and a later alias-only PUBLISH is refused or resolves to a stale topic',
+         b.loc(early[0]) if early else None)
     # --- limit on new bindings
     vac = [(bi, t) for bi, t in ins if 'VacantEntry' in callee_name(t) or callee_name(t).endswith('HashMap::<K, V, S, A>::insert')]
     from c16 import cmp_facts_at, val_key
@@ -129,6 +143,22 @@ def alias_rules(F, R, d):
         for v, locs in sorted(lits.items()):
             R.ob('C17.bind', 'v5-client|max_topic_alias|literal=%s' % v, False,
                  'the client enforces a literal topic-alias maximum (%s, at %d call sites of create_dispatcher) instead of the value it advertised in CONNECT (Connect.topic_alias_max)' % (v, len(locs)), locs[0])
+
+
+def negotiated_max(F, R):
+    """Server: the enforced maximum (shared.topic_alias_max) is the value written to CONNACK."""
+    b = F.one(r'^<v5::server::HandshakeService<St, H> as ntex_service::Service<ntex_io::IoBoxed>>::call::\{closure#0\}$')
+    sets = [(bi, t) for bi, t in b.calls_to(r'^v5::shared::MqttShared::set_topic_alias_max$')]
+    from_ack = []
+    for bi, t in sets:
+        ap = apath(b, t['args'][1])
+        if ap and 'packet' in ap and ap[-1] == 'topic_alias_max' and any('ack' in x or 'call:' in x for x in ap[:1] + ap):
+            from_ack.append(bi)
+    encs = [bi for bi, t in b.calls_to(r'^ntex_io::.*IoRef>::encode$')]
+    ok = bool(from_ack)
+    R.ob('C17.bind', 'v5-server|enforced-maximum=advertised', ok,
+         'the handshake does not copy the final CONNACK topic_alias_max (possibly overridden by the application) into the value the dispatcher enforces (set_topic_alias_max(ack.packet.topic_alias_max)): the enforced limit differs from the advertised one',
+         b.loc(sets[0][0]) if sets else None)
 
 
 def per_connection(F, R):
@@ -189,5 +219,6 @@ def run(F, R):
     for d in all_dispatchers(F):
         if d.ver == 'v5':
             alias_rules(F, R, d)
+    negotiated_max(F, R)
     per_connection(F, R)
     route_on_resolved(F, R)
